@@ -22,7 +22,7 @@ fn splice(b: &mut Vec<u8>, at: usize, del: usize, ins: &[u8]) {
 
 /// one structured damage; returns its label
 fn damage(b: &mut Vec<u8>, rng: &mut Rng) -> &'static str {
-    let kind = rng.below(16);
+    let kind = rng.below(18);
     match kind {
         0 => {
             // unquoted attribute value
@@ -175,6 +175,29 @@ fn damage(b: &mut Vec<u8>, rng: &mut Rng) -> &'static str {
             }
             "none"
         }
+        15 => {
+            // white space inside an end tag: after the name it is legal, before it it is not
+            let q = find_all(b, b"</");
+            if let Some(&i) = q.get(rng.below(q.len().max(1))) {
+                if rng.chance(1, 2) {
+                    splice(b, i + 2, 0, *rng.pick(&[b" ".as_slice(), b"\n", b"\t "]));
+                    return "blank-before-end-name";
+                } else if let Some(j) = b[i..].iter().position(|c| *c == b'>') {
+                    splice(b, i + j, 0, *rng.pick(&[b" ".as_slice(), b"\n", b"\t "]));
+                    return "blank-after-end-name";
+                }
+            }
+            "none"
+        }
+        16 => {
+            // an invalid byte exactly where another name of the document has U+FFFD
+            let q = find_all(b, "\u{FFFD}".as_bytes());
+            if let Some(&i) = q.get(rng.below(q.len().max(1))) {
+                splice(b, i, 3, if rng.chance(1, 2) { &[0xFF] } else { &[0xC3] });
+                return "invalid-byte-for-U+FFFD";
+            }
+            "none"
+        }
         _ => {
             // second root / trailing garbage
             let tails: [&[u8]; 5] = [b"<b/>", b"<a/>", b"text", b"<", b"</a>"];
@@ -264,9 +287,9 @@ pub fn run(ctx: &mut Ctx, c07: bool) {
     }
     // every sequence of markup tokens up to a length, well-formed or not: all interleavings of
     // open / close / empty / text / faults that fit, alone and as an extension of a parsed root
-    let toks: [&[u8]; 13] = [
+    let toks: [&[u8]; 14] = [
         b"<a>", b"<b>", b"<a/>", b"<b x=\"1\"/>", b"<a x=\"1\" y=\"2\">", b"</a>", b"</b>", b"t", b"<!--c-->", b"<![CDATA[d]]>",
-        b"<a x=1>", b"<b x=\"1\" x=\"2\"/>", b"\xFF",
+        b"<a x=1>", b"<b x=\"1\" x=\"2\"/>", b"\xFF", b"</ a>",
     ];
     let max_len = if ctx.thorough { 5 } else { 4 };
     let mut idx: Vec<usize> = vec![];
@@ -364,6 +387,8 @@ pub fn run(ctx: &mut Ctx, c07: bool) {
         let cfg = if c07 {
             RCfg {
                 trim_text: rng.chance(1, 3),
+                trim_end: rng.chance(1, 5),
+                trim_start: rng.chance(1, 8),
                 expand_empty: rng.chance(1, 3),
                 check_end_names: !rng.chance(1, 3),
                 bufcap: *rng.pick(&caps),
@@ -403,6 +428,7 @@ pub fn run(ctx: &mut Ctx, c07: bool) {
         if c07 {
             hist.add(&format!("reader:trim={},expand={},check_end={},cap={}", cfg.trim_text, cfg.expand_empty, cfg.check_end_names, cfg.bufcap));
             hist.add(&format!("reader:allow_unmatched_ends={},caller_read_first={}", cfg.allow_unmatched_ends, cfg.skip_events));
+            hist.add(&format!("reader:trim_end_only={},trim_start_only={}", cfg.trim_end && !cfg.trim_text, cfg.trim_start && !cfg.trim_text));
         }
         if cfg.fail_after > 0 {
             hist.add("reader:io-error-part-way");
@@ -454,9 +480,9 @@ pub fn run(ctx: &mut Ctx, c07: bool) {
     ctx.meta.push(("evaluations", J::N(evaluations)));
     ctx.meta.push(("distinct_nontrivial", J::N(distinct.len() as i64)));
     ctx.meta.push(("rule", json::s(format!(
-        "byte strings: exhaustive truncation of small documents (alone and as an extension); every sequence of up to {} markup tokens out of 13 (start / end / empty tags of two names, text, comment, CDATA, an unquoted attribute, a duplicated attribute, an invalid UTF-8 byte), alone and (up to 3 tokens) as an extension; {} generated inputs = valid serialisations of random DOMs with 0-3 structured damages (unquoted / duplicated / value-less attributes, invalid UTF-8 in name / key / text / CDATA / comment / value, mismatched / extra / missing end tags, truncation, markup noise, bit flips, byte inserts/deletes, quote damage, trailing content), 5% raw random bytes, 5% nesting up to depth 200; a third as (document, extension) pairs; {}; non-trivial = some document of at least 4 bytes, distinct by bytes",
-        max_len, n, if c07 { "reader configuration drawn per case from trim_text x expand_empty_elements x check_end_names x allow_unmatched_ends x BufReader capacity {slice,1,2,3,7,64,8192}, a sixth of the readers handed over after the caller has read 1-3 events itself; every Ok result is rendered" } else { "default reader configuration (a quarter through BufReaders of capacity 1..8192)" }))));
-    ctx.meta.push(("exhaustive_part", json::s(format!("all sequences of 1..{} tokens over the 13-token markup alphabet (and of 1..3 tokens as an extension of <a><b x=\"1\"/>t</a>); all truncations of the small documents", max_len))));
+        "byte strings: exhaustive truncation of small documents (alone and as an extension); every sequence of up to {} markup tokens out of 14 (start / end / empty tags of two names, text, comment, CDATA, an unquoted attribute, a duplicated attribute, an invalid UTF-8 byte, an end tag with a blank before its name), alone and (up to 3 tokens) as an extension; {} generated inputs = valid serialisations of random DOMs with 0-3 structured damages (unquoted / duplicated / value-less attributes, invalid UTF-8 in name / key / text / CDATA / comment / value, mismatched / extra / missing end tags, truncation, blanks inside end tags, an invalid byte in place of a U+FFFD, markup noise, bit flips, byte inserts/deletes, quote damage, trailing content), 5% raw random bytes, 5% nesting up to depth 200; a third as (document, extension) pairs; {}; non-trivial = some document of at least 4 bytes, distinct by bytes",
+        max_len, n, if c07 { "reader configuration drawn per case from trim_text x trim_text_end alone x trim_text_start alone x expand_empty_elements x check_end_names x allow_unmatched_ends x BufReader capacity {slice,1,2,3,7,64,8192}, a sixth of the readers handed over after the caller has read 1-3 events itself; every Ok result is rendered" } else { "default reader configuration (a quarter through BufReaders of capacity 1..8192)" }))));
+    ctx.meta.push(("exhaustive_part", json::s(format!("all sequences of 1..{} tokens over the 14-token markup alphabet (and of 1..3 tokens as an extension of <a><b x=\"1\"/>t</a>); all truncations of the small documents", max_len))));
     ctx.meta.push(("histogram", hist.json()));
     ctx.meta.push(("samples", J::A(samples)));
 }
